@@ -132,6 +132,124 @@ def handshake_leg(ctx, rep, rnd, tier):
     return n_part
 
 
+def fd_stream_leg(ctx, rep, rnd, tier, only=None):
+    """streams in which messages carry unix descriptors: the transport's reading loop with the loader's read limit
+    (_dbus_message_loader_get_buffer slow path) against the model (Wire.Message.max_to_read / feed_limited)"""
+    from rawbus import Msg
+    info = ctx["info"]
+    cases = []
+    if only is not None:
+        cases = [only]
+    else:
+        for si in range(40 if tier == "quick" else 1500):
+            msgs, total_fds = [], 0
+            for k in range(rnd.choice((1, 2, 3, 5))):
+                nf = rnd.choice((0, 1, 1, 2, 3))
+                total_fds += nf
+                f = {1: "/a", 2: "a.b", 3: "S"}
+                if nf:
+                    f[9] = nf
+                sig, body = ("h" * nf, tuple(range(nf))) if rnd.random() < 0.7 else ("s", ("x" * rnd.choice((0, 1, 7, 8, 300)),))
+                if rnd.random() < 0.15:
+                    sig, body = "", ()
+                msgs.append(Msg(rnd.choice((1, 4)), 0, k + 1, f, sig, body, le=rnd.random() < 0.5).encode())
+            stream = b"".join(msgs)
+            bounds, off = [], 0
+            for m in msgs:
+                bounds.append((off, wiregen.header_len(m), len(m)))
+                off += len(m)
+            if rnd.random() < 0.25:
+                bad = bytearray(msgs[0])
+                bad[rnd.randrange(len(bad))] ^= 0x41
+                stream += bytes(bad)
+            nfds = total_fds if rnd.random() < 0.8 else max(0, total_fds - 1)
+            for cuts in interesting_cuts(stream, bounds, rnd, 4 if tier == "quick" else 12):
+                cases.append((nfds, stream, split_at(stream, cuts)))
+    lines = ["loadf %d %s" % (nf, " ".join(vlib.hexs(c) for c in chunks)) for nf, _, chunks in cases]
+    oneshot = ["loadf %d %s" % (nf, vlib.hexs(st)) for nf, st, _ in cases]
+    impl, icr = vlib.run_lines(info["wire_h"], lines)
+    implone, icr1 = vlib.run_lines(info["wire_h"], oneshot)
+    model, _ = vlib.run_lines(info["model"], lines)
+    for line, err in icr + icr1:
+        rep.violation("implementation crashed on `%s`: %s" % (line[:300], err[-600:]), {"input": line, "stderr": err})
+    limited = 0
+    for (nf, stream, chunks), l, i, i1, m in zip(cases, lines, impl, implone, model):
+        if "!CRASH" in (i, i1):
+            continue
+        di, d1 = (dict(x.split("=", 1) for x in r.split(" ")[:4]) for r in (i, i1))
+        if ":0" in di["reads"]:
+            limited += 1
+        if di["stalled"] == "1":
+            rep.violation("with %d descriptors pending the loader asked for a 0-byte read in the middle of the stream (the socket transport takes that for end-of-file and disconnects): chunks %s reads %s" % (
+                nf, [len(c) for c in chunks][:20], di["reads"][:200]), {"cmd": l, "impl_chunked": i, "impl_unsplit": i1, "leg": "fdstream"})
+        elif (di["corrupted"], di["msgs"]) != (d1["corrupted"], d1["msgs"]):
+            rep.violation("descriptor-carrying stream: chunked feed gives a different outcome than the unsplit stream: chunks %s -> %s ; unsplit -> %s" % (
+                [len(c) for c in chunks][:20], i[:160], i1[:160]), {"cmd": l, "impl_chunked": i, "impl_unsplit": i1, "leg": "fdstream"})
+        elif m.startswith("?") or "?glue" in m:
+            rep.violation("model driver failed on %s: %s" % (l[:200], m[:200]), {"cmd": l, "names": "ml/wire driver loadf", "leg": "fdstream"}, found_input=False)
+        elif i != m:
+            rep.violation("read limits / outcome differ from the model for chunks %s: impl %s vs model %s" % ([len(c) for c in chunks][:20], i[:160], m[:160]),
+                          {"cmd": l, "impl": i, "model": m, "leg": "fdstream", "names": "correspondence wire_h/loadf vs Wire.Message.max_to_read + feed_limited"}, found_input=False)
+    return len(cases), limited
+
+
+def fd_daemon_leg(ctx, rep, rnd, tier):
+    """the same through the real socket transport: a descriptor-carrying message addressed to the sender itself, written in two
+    pieces (descriptor attached to the first), cut at every offset of the fixed header and around the header end"""
+    import os as _os, time
+    sys.path.insert(0, os.path.join(vlib.VERIF, "harness", "py"))
+    from rawbus import Daemon, Msg, RawConn
+    d = Daemon(ctx["info"]["daemon"])
+    n = 0
+    try:
+        c = RawConn(d.address, want_fds=True)
+        c.hello()
+        if not c.can_fds:
+            return 0
+        serial = 100
+        for le in (True, False):
+            probe = Msg(4, 0, 1, {1: "/a", 2: "a.b", 3: "S", 6: c.unique, 9: 1}, "hs", (0, "y" * 40), le=le).encode()
+            cuts = list(range(1, 26)) + [wiregen.header_len(probe) - 1, wiregen.header_len(probe), wiregen.header_len(probe) + 1, len(probe) - 1]
+            for cut in cuts if tier != "quick" else cuts[::1]:
+                serial += 1
+                b = Msg(4, 0, serial, {1: "/a", 2: "a.b", 3: "S", 6: c.unique, 9: 1}, "hs", (0, "y" * 40), le=le).encode()
+                r, w = _os.pipe()
+                try:
+                    c.send_raw(b[:cut], fds=(r,))
+                    time.sleep(0.002)
+                    c.send_raw(b[cut:])
+                    # a second, descriptor-free message right behind it
+                    c.send(Msg(4, 0, serial + 100000, {1: "/a", 2: "a.b", 3: "T", 6: c.unique}, "", ()))
+                except OSError:
+                    pass
+                finally:
+                    _os.close(r); _os.close(w)
+                got, t_end = [], time.time() + 3.0
+                while len(got) < 2 and time.time() < t_end and not c.closed:
+                    c._pump(0.2)
+                    got += [m for m in c.inbox if m.mtype == 4 and m.fields.get(3) in ("S", "T")]
+                    c.inbox = []
+                n += 1
+                for m in got:
+                    for fd in getattr(m, "fds", []):
+                        _os.close(fd)
+                ok = len(got) == 2 and got[0].fields.get(3) == "S" and got[1].fields.get(3) == "T" and len(getattr(got[0], "fds", [])) == 1
+                if not ok:
+                    rep.violation("descriptor-carrying message written to the bus in pieces of %d + %d bytes (byte order %s) and a following message: received %s, connection closed=%s; the unsplit stream is delivered" % (
+                        cut, len(b) - cut, "l" if le else "B", [(m.fields.get(3), len(getattr(m, "fds", []))) for m in got], c.closed),
+                        {"leg": "fd-daemon", "cut": cut, "le": le, "stream_hex": b.hex()})
+                    if c.closed:
+                        c = RawConn(d.address, want_fds=True)
+                        c.hello()
+                    break
+        c.close()
+    finally:
+        rc, err = d.stop()
+        if rc not in (0, -15) or "ERROR: AddressSanitizer" in err or "runtime error" in err:
+            rep.violation("daemon died or reported a sanitizer error during the fd leg: rc=%s %s" % (rc, err[-500:]), {"leg": "fd-daemon", "stderr": err})
+    return n
+
+
 def run(ctx):
     rep, tier, info = ctx["rep"], ctx["tier"], ctx["info"]
     rnd = random.Random(ctx["seed"])
@@ -177,6 +295,14 @@ def run(ctx):
         if rp.get("leg") == "handshake":
             handshake_leg(ctx, rep, rnd, tier)
             cases = []
+        elif rp.get("leg") == "fd-daemon":
+            fd_daemon_leg(ctx, rep, rnd, tier)
+            cases = []
+        elif rp.get("leg") == "fdstream":
+            t = rp["cmd"].split(" ")
+            chunks = [bytes.fromhex(x) for x in t[2:]]
+            fd_stream_leg(ctx, rep, rnd, tier, only=(int(t[1]), b"".join(chunks), chunks))
+            cases = []
         else:
             chunks = [bytes.fromhex("" if x == "-" else x) for x in rp["cmd"].split(" ")[2:]]
             cases = [(b"".join(chunks), chunks)]
@@ -205,11 +331,21 @@ def run(ctx):
                           {"cmd": l, "impl": i, "model": m, "names": "correspondence wire_h/load (chunked) vs Wire.Message.feed_all"}, found_input=False)
     n_hs = handshake_leg(ctx, rep, rnd, tier) if not ctx.get("replay") else 0
     meta["handshake_partitions"] = n_hs
+    n_fd, n_lim, n_fdd = 0, 0, 0
+    if not ctx.get("replay"):
+        n_fd, n_lim = fd_stream_leg(ctx, rep, rnd, tier)
+        n_fdd = fd_daemon_leg(ctx, rep, rnd, tier)
+    meta["fd_stream_cases"] = n_fd
+    meta["fd_stream_cases_with_limited_reads"] = n_lim
+    meta["fd_daemon_partitions"] = n_fdd
     rep.coverage.update({
-        "evaluations": len(cases) + n_hs, "distinct_nontrivial": len(nontrivial),
+        "evaluations": len(cases) + n_hs + n_fd + n_fdd, "distinct_nontrivial": len(nontrivial),
         "rule": "streams of 1-8 random valid messages (both byte orders, sizes 16 B - 70 KB), half of them followed by a corrupted message and more bytes; "
                 "cut sets: every single cut at fixed-header/ header-end / message-end boundaries +-1, one-byte chunks for streams <= 600 bytes, random multi-cuts; "
-                "all subsets of 14 boundary cut points of a two-message stream (thorough; every 7th in quick). non-trivial = more than one chunk",
+                "all subsets of 14 boundary cut points of a two-message stream (thorough; every 7th in quick). non-trivial = more than one chunk. "
+                "descriptor leg: streams of 1-5 messages with UNIX_FDS 0-3 each, descriptors handed over with the first read, same cut sets, through the transport's reading loop "
+                "honouring the loader's read limit: limits asked for, stall flag, messages and verdict = model (max_to_read / feed_limited) and = unsplit; "
+                "and against the real daemon: a descriptor-carrying message to oneself written in two pieces cut at offsets 1..25, header end +-1, last byte, both byte orders",
         "samples": [{"chunks": [len(c) for c in ch][:20], "impl": i[:100]} for (_, ch), i in list(zip(cases, impl))[::max(1, len(cases) // 8)]][:8],
         "input_distribution": meta, "traces_validated_against_impl": len(cases), "disagreements_checked": len(rep.violations),
     })
